@@ -23,7 +23,8 @@ N1, N2, N3, N4 = 27, 27 ** 2, 27 ** 3, 27 ** 4
 RULE = ("configurations of k=1..4 points: ALL configurations with coordinates in {-1,0,1} for k=1,2,3 (20 439) in both tiers; "
         "k=4: 60 000 sampled (quick) / all 531 441 (thorough, exhaustive); thorough adds 200 000 sampled configurations over "
         "{-2..2}^3; plus random real configurations (12 000 quick / 100 000 thorough) with aspect ratios over 12 orders of "
-        "magnitude, duplicated and nearly dependent points. One case = a block of 64 configurations. For each configuration "
+        "magnitude, duplicated and nearly dependent points, and 'GJK slivers' (points collinear up to rounding on a line that "
+        "misses the origin). One case = a block of 64 configurations. For each configuration "
         "both solvers run: jolt get_closest_point_to_origin(Y,k,inf) and the original "
         "distance_subalgorithm_with_backup_procedure(simplex, Solution(), backup=True). Judged against the exact rational "
         "minimum: |v| within 1e-9*scale, v inside the hull of the returned subset, weights >= 0 summing to 1 that reproduce v. "
@@ -78,8 +79,25 @@ def config(rng, g, tier):
         return rng.integers(-2, 3, size=(k, 3)).astype(float), "lattice5-k%d" % k
     # random real configurations
     k = int(rng.integers(1, 5))
-    mode = str(rng.choice(["aspect", "near-dependent", "duplicate", "plain", "tiny", "huge"]))
+    mode = str(rng.choice(["aspect", "near-dependent", "duplicate", "plain", "tiny", "huge", "gjk-sliver"]))
     P = rng.normal(size=(k, 3))
+    if mode == "gjk-sliver":
+        # what GJK's last simplex looks like in front of a flat or straight feature: support differences on one line that
+        # does not pass through the origin, off that line only by rounding (1e-17..1e-12 of the size), the deviation pointing
+        # towards the origin, so that the plane of the sliver (nearly) contains the origin
+        from .. import gen
+        k = int(rng.integers(3, 5))
+        R = gen.rand_rot(rng, str(rng.choice(["ident", "perm", "haar"])))
+        r = float(rng.choice([0.25, 0.5, 1.0, 3.0]))
+        t = [-float(rng.uniform(0.5, 8.0)), float(rng.uniform(0.2, 4.0))]
+        while len(t) < k:
+            t.append(t[-1] + float(rng.choice([-1.0, 1.0])) * 10 ** rng.uniform(-9, -1))
+        dl = [0.0] + [float(rng.choice([-1.0, 1.0])) * 10 ** rng.uniform(-17, -12) * float(rng.integers(0, 3)) for _ in range(k - 1)]
+        P = np.array([[-(r + d * r), 0.0, ti] for ti, d in zip(t, dl)])
+        if rng.random() < 0.5:
+            P = P[rng.permutation(k)]
+        P = (P @ R.T) * float(rng.choice([1.0, 1.0, 0.1, 10.0]))
+        return np.ascontiguousarray(P), "real-gjk-sliver-k%d" % k
     if mode == "aspect":
         P = P * 10 ** rng.uniform(-6, 6, size=3)
     elif mode == "near-dependent" and k >= 2:
